@@ -70,6 +70,7 @@ def _on_alarm(signum, frame):
 
 
 STOP_EVENT = [None]      # multiprocessing.Event shared by the pool
+XCHECK_SOLVER = "/usr/bin/z3"   # z3 4.8.12 (the engine links z3 5.1)
 
 
 class Stopped(_Control):
@@ -117,7 +118,7 @@ class ConcreteViolation(_Control):
 class Stats(object):
     FIELDS = ("paths", "vacuous", "branches", "forks", "sat", "unsat",
               "unknown", "solver_s", "proved", "concretised", "validated",
-              "cache_hits", "model_hits")
+              "cache_hits", "model_hits", "xchecked", "xunknown")
 
     def __init__(self):
         for f in self.FIELDS:
@@ -156,6 +157,7 @@ class Engine(object):
         # label ends the exploration of the unit at once (fail fast)
         self.known = set(known)
         self.stopped_early = False
+        self.xcheck_left = 0
         self.replay_checks = True
         self.path_timeout_s = path_timeout_s
         self.concrete_timeout_s = concrete_timeout_s
@@ -642,12 +644,64 @@ class Engine(object):
             if z3.is_true(c):
                 return True
             if self._check(z3.Not(c)) == z3.unsat:
+                self._crosscheck(c, "unsat")
                 return True
             m = self.solver.model()
+            self._crosscheck(c, "sat")
         self.path_violations.append(Violation(
             label, self._model_inputs(m), list(self.choices),
             _short(self._evaluate(detail, m)) if detail is not None else None))
         return False
+
+    def _crosscheck(self, c, verdict):
+        """Second opinion (DESIGN 8.4): re-decide a sample of the proof
+        queries with a different solver build -- the distribution's z3 4.8.12
+        binary -- through an SMT-LIB export.  A contradicting answer makes the
+        run inconclusive; `unknown`/time-outs of the second solver are only
+        counted."""
+        if self.xcheck_left <= 0:
+            return
+        self.xcheck_left -= 1
+        import os
+        import subprocess
+        import tempfile
+        try:
+            s2 = z3.Solver()
+            s2.add(self.solver.assertions())
+            s2.add(z3.Not(c))
+            text = s2.to_smt2()
+        except Exception:
+            return
+        fd, path = tempfile.mkstemp(suffix=".smt2", prefix="sx_xc_")
+        try:
+            with os.fdopen(fd, "w") as f:
+                f.write(text)
+            try:
+                out = subprocess.run(
+                    [XCHECK_SOLVER, "-smt2", "-T:30", path],
+                    capture_output=True, text=True, timeout=60).stdout
+            except Exception:
+                self.stats.xunknown += 1
+                return
+        finally:
+            try:
+                os.unlink(path)
+            except OSError:
+                pass
+        lines = [ln.strip() for ln in out.splitlines() if ln.strip()]
+        if any(ln.startswith("(error") for ln in lines):
+            self.stats.xunknown += 1
+            return
+        ans = lines[0] if lines else "unknown"
+        if ans not in ("sat", "unsat"):
+            self.stats.xunknown += 1
+            return
+        self.stats.xchecked += 1
+        if ans != verdict:
+            raise Inconclusive("solvers disagree on a proof query: z3 %s "
+                               "says %s, %s says %s" % (
+                                   z3.get_version_string(), verdict,
+                                   XCHECK_SOLVER, ans))
 
     def reachable(self, cond=True):
         """Vacuity witness: is `cond` satisfiable on this path?"""
